@@ -433,7 +433,11 @@ def make_scripted(fsic, spec, bases=None, extra_attrs=None):
             raise
         finally:
             rec['post_endo'] = [num(d['_' + nm][t]) for nm in endo]
-            rec['post'] = [num(d['_' + nm][t]) for nm in check]
+            drift = p.get('drift')
+            if drift and hook == 'eval' and rec['exc'] is None and drift['name'] in d['index']:
+                # a check variable that is not endogenous (one the user added, of a dtype of its own) moves every pass
+                d['_' + drift['name']][t] = d['_' + drift['name']][t] + fval(drift['d'])
+            rec['post'] = [num(d['_' + nm][t]) for nm in (d['check'] if isinstance(d.get('check'), list) else check)]
             if ctl.columns:
                 rec['post_all'] = _column(d, t)
 
